@@ -296,6 +296,31 @@ func (g *unigen) newDoc(retrieval, id string, isRoot bool) *udoc {
 				e.key = key
 			}
 			parent.embedded = append(parent.embedded, e)
+			if strings.HasPrefix(e.uri, "http") && g.r.IntN(4) == 0 {
+				// a NEAR-VARIANT decoy: an unreferenced $defs entry whose $id differs from this resource's URI only by a trailing
+				// slash, an empty path segment, a query or the case of the path - different URIs (RFC 3986 6.2), never a target
+				v := e.uri
+				switch g.r.IntN(4) {
+				case 0:
+					v += "/"
+				case 1:
+					if i := strings.LastIndex(v, "/"); i > len("http://") {
+						v = v[:i] + "/" + v[i:]
+					} else {
+						v += "/"
+					}
+				case 2:
+					v += "?v=1"
+				default:
+					if i := strings.LastIndex(v, "/"); i >= 0 {
+						v = v[:i] + strings.ToUpper(v[i:])
+					}
+				}
+				marker := fmt.Sprintf("T%d", g.nT)
+				g.nT++
+				defs := d.root.node[g.defsKW()].(map[string]any)
+				defs[Pick(g.r, []string{"zz-near", "aa-near", "near"})+fmt.Sprint(g.nT)] = map[string]any{"$id": v, "const": marker}
+			}
 		}
 	}
 	return d
